@@ -138,5 +138,9 @@ def _initial_state(rng, spec, lo=0, hi=30, boundary_prob=0.2):
     return x0
 
 
-def param_values(rng, spec):
+def param_values(rng, spec, int_prob=0.12):
+    # 12 %: every parameter a whole number given as a Python int (rates of division-free forms are then computed in integer arithmetic)
+    if rng.random() < int_prob:
+        spec["int_parameters"] = True
+        return [rng.randint(1, 3) for _ in spec["params"]]
     return [round(rng.uniform(0.05, 2.0), 4) for _ in spec["params"]]
